@@ -673,8 +673,13 @@ func (h *handler1) checkPacketLegal(pkt snPkts.Packet) error {
 		return nil
 	// Handler is switched to disconnected state _before_ client
 	// responds to DISCONNECT => we must enable DISCONNECT packet.
+	// A DISCONNECT with a sleep duration is not legal here: a client
+	// which never connected cannot go to sleep (and wake up to the
+	// connected state without any CONNECT sent to the MQTT broker).
 	case *snPkts1.Disconnect:
-		return nil
+		if snPkt.Duration == 0 {
+			return nil
+		}
 	case *snPkts1.Publish:
 		// QOS 3 packets with short or predefined topics are allowed
 		// without prior CONNECT.
